@@ -227,13 +227,14 @@ def nextLoop (nW l iter : Nat) : Nat → Option Nat → Nat → List Nat → Boo
           nextLoop nW l iter fuel trials' p' mods' ok' tape'
 
 /-- `bool_t priNextPrime(word p[], const word a[], size_t n, size_t trials, size_t base_count, size_t iter, …)`;
-    `nW` = n·W (bits of the array), trials = none ⇔ SIZE_MAX, `fuel` bounds the candidates the driver follows -/
+    `nW` = n·W (bits of the array), trials = none ⇔ SIZE_MAX, `fuel` bounds the candidates the driver follows.
+    The factor base is adjusted when the VALUE fits a word (`l <= B_PER_W`, docs/C12.fix-5; it was `n == 1`). -/
 def priNextPrime (W n a : Nat) (trials : Option Nat) (baseCount iter : Nat) (tape : List Nat) (fuel : Nat) : Option Nat :=
   let l := bitSize a
   if l ≤ 1 then none
   else
     let p := a ||| 1
-    let bc := if n = 1 then adjustBaseCount p true baseCount else baseCount
+    let bc := if l ≤ W then adjustBaseCount p true baseCount else baseCount
     let mods := priBaseMod W p bc
     nextLoop (n * W) l iter fuel trials p mods (mods.all (· ≠ 0)) tape
 
